@@ -26,6 +26,7 @@ func init() {
 		EnumRule: "obligations per rule and construct",
 		Assumptions: []string{"that the structure R7 decides implements the x86-64 recursive-mapping scheme is the standard argument and is not mechanised; 'other pages unchanged' is not decided"},
 		Controls: []Control{
+			{Name: "a page of an identity region skipped", File: "kernel/mm/vmm/map.go", Old: "\tfor curPage := startPage; curPage < startPage+pageCount; curPage++ {\n\t\tif err := mapFn(curPage, mm.Frame(curPage), flags); err != nil {", New: "\tfor curPage := startPage; curPage < startPage+pageCount; curPage++ {\n\t\tif flags == 0 && curPage > startPage {\n\t\t\tcontinue\n\t\t}\n\t\tif err := mapFn(curPage, mm.Frame(curPage), flags); err != nil {", Expect: "C04.R6 region-helper mm/vmm.IdentityMapRegion"},
 			{Name: "identity page count as last page index plus one", File: "kernel/mm/vmm/map.go", Old: "\tpageCount := mm.Page(((size + (mm.PageSize - 1)) & ^(mm.PageSize - 1)) >> mm.PageShift)\n", New: "\tpageCount := mm.Page((size-1)>>mm.PageShift) + 1\n", Expect: "C04.R6"},
 			{Name: "delete *pte = 0 at the leaf", File: "kernel/mm/vmm/map.go", Old: "\t\t\t*pte = 0\n\t\t\tpte.SetFrame(frame)\n", New: "\t\t\tpte.SetFrame(frame)\n", Expect: "C04.R1"},
 			{Name: "delete the flush in Unmap", File: "kernel/mm/vmm/map.go", Old: "\t\t\tpte.ClearFlags(FlagPresent)\n\t\t\tflushTLBEntryFn(page.Address())\n", New: "\t\t\tpte.ClearFlags(FlagPresent)\n", Expect: "C04.R2"},
